@@ -69,6 +69,61 @@ theorem uniqueNameOf_head (n : Nat) : (uniqueNameOf n).head? = some ':' := by
 theorem uniqueNameOf_ne_nil (n : Nat) : uniqueNameOf n ≠ [] := by
   simp [uniqueNameOf]
 
+/-! ### the re-marshalling step against the generated per-class header tables -/
+
+/-- DESTINATION is in `_headerAttrs` of all four message classes (checked on the generated table). -/
+theorem keeps_destination (t : MType) : keeps t .destination = true := by cases t <;> decide
+/-- SENDER is in `_headerAttrs` of all four message classes. -/
+theorem keeps_sender (t : MType) : keeps t .sender = true := by cases t <;> decide
+
+theorem remarshal_dest (m : Msg) (nm : Name) : (remarshal m nm).dest = m.dest := by
+  simp [remarshal, keeps_destination]
+theorem remarshal_sender (m : Msg) (nm : Name) : (remarshal m nm).sender = some nm := by
+  simp [remarshal, keeps_sender]
+theorem remarshal_mtype (m : Msg) (nm : Name) : (remarshal m nm).mtype = m.mtype := rfl
+theorem remarshal_serial (m : Msg) (nm : Name) : (remarshal m nm).serial = m.serial := rfl
+theorem remarshal_body (m : Msg) (nm : Name) : (remarshal m nm).body = m.body := rfl
+theorem remarshal_flags (m : Msg) (nm : Name) :
+    (remarshal m nm).noReply = m.noReply ∧ (remarshal m nm).noAutoStart = m.noAutoStart ∧
+    (remarshal m nm).otherFlags = m.otherFlags := ⟨rfl, rfl, rfl⟩
+
+/-- The forwarded form does not depend on the name except in the sender field. -/
+theorem eraseSender_remarshal (m : Msg) (nm : Name) : eraseSender (remarshal m nm) = wireForm m := by
+  simp [eraseSender, withSender, wireForm, remarshal]
+
+/-- For a message that carries only the header fields of its type and no unknown field, parse +
+re-marshal changes the sender and nothing else. -/
+theorem remarshal_canonical (m : Msg) (nm : Name) (h : Canonical m) : remarshal m nm = withSender m (some nm) := by
+  obtain ⟨h0, h1, h2, h3, h4, h5⟩ := h
+  have e1 : (if keeps m.mtype .path = true then m.path else none) = m.path := by
+    by_cases k : keeps m.mtype .path = true
+    · simp [k]
+    · simp [k, h1 (by simpa using k)]
+  have e2 : (if keeps m.mtype .interface = true then m.iface else none) = m.iface := by
+    by_cases k : keeps m.mtype .interface = true
+    · simp [k]
+    · simp [k, h2 (by simpa using k)]
+  have e3 : (if keeps m.mtype .member = true then m.member else none) = m.member := by
+    by_cases k : keeps m.mtype .member = true
+    · simp [k]
+    · simp [k, h3 (by simpa using k)]
+  have e4 : (if keeps m.mtype .errorName = true then m.errorName else none) = m.errorName := by
+    by_cases k : keeps m.mtype .errorName = true
+    · simp [k]
+    · simp [k, h4 (by simpa using k)]
+  have e5 : (if keeps m.mtype .replySerial = true then m.replySerial else none) = m.replySerial := by
+    by_cases k : keeps m.mtype .replySerial = true
+    · simp [k]
+    · simp [k, h5 (by simpa using k)]
+  cases m
+  simp only [remarshal, withSender, keeps_destination, keeps_sender, if_true] at *
+  simp [e1, e2, e3, e4, e5, h0]
+
+theorem wireForm_canonical (m : Msg) (h : Canonical m) : wireForm m = eraseSender m := by
+  unfold wireForm
+  rw [remarshal_canonical m [] h]
+  rfl
+
 section
 variable {ρ : Type}
 
